@@ -98,26 +98,12 @@ def run(cx):
         r.check(lead == want_ and not later and not in_setup, f"parse/script[{label}]-one-poll-per-button-first-sorted", (pm, pf), f"script `{label}`: loop_body begins with polls {lead} (later polls {later}, polls in setup {in_setup}); expected exactly {want_} at the head")
 
     # ---- C15-CACHED --------------------------------------------------------------------------
-    r = cx.rule("C15-CACHED", "is_pressed() is translated to the cached sample (never a pin read) and registers the poll; no parser template other than the Core digital_read helper can produce digitalRead", floor=3)
-    tce = pm.func("_to_c_expr")
-    ctx = {"button_names": {"dev"}}
-    out = dl.Interp(pm, opaque={"ast.parse": ast.parse}).call(tce, ["dev.is_pressed()", {}, ctx])
-    got = out.value if out.kind == "return" else None
-    r.check(got == "(__redu_button_value_dev ? 1 : 0)", "is_pressed/cached-sample", (pm, tce), f"dev.is_pressed() -> `{got}`")
-    r.check("dev" in ctx.get("button_poll_names", set()), "is_pressed/registers-poll", (pm, tce), "is_pressed() must register the button for polling")
-    for q, fn in pm.funcs.items():
-        for n in walk_local(fn, include_self=False):
-            if isinstance(n, ast.Constant) and isinstance(n.value, str) and "digitalRead" in n.value:
-                encl = [a for a in pm.ancestors(n) if isinstance(a, ast.If)]
-                in_core = any("fname == 'digital_read'" in norm(a.test) for a in encl)
-                r.check(in_core, f"{q}/emits-digitalRead", (pm, n), f"the parser template `{n.value[:50]}` reads a pin outside the Core digital_read helper: button state must come from the per-pass sample", sample=f"{q}: digitalRead in the digital_read helper")
-    for q, fn in em.funcs.items():
-        for n in walk_local(fn, include_self=False):
-            if isinstance(n, ast.Constant) and isinstance(n.value, str) and "digitalRead(" in n.value:
-                encl = [a for a in em.ancestors(n) if isinstance(a, ast.If)]
-                ok = any("ButtonPoll" in norm(a.test) or "ButtonDecl" in norm(a.test) for a in encl)
-                r.check(ok, f"{q}/emits-digitalRead", (em, n), f"the emitter template `{n.value[:50]}` reads a pin outside the button poll/initialisation", sample=f"{q}: digitalRead in button poll/init")
+    # decided on whole sketches: scripts that use is_pressed() in assignments, conditions of if / nested while, helper functions,
+    # boolean and arithmetic expressions, twice in a pass; the emitted sketch is evaluated on a scripted board
+    from .. import e2e
+    e2e.rule_traces(cx, "C15-CACHED", "c15", (pm, pm.func("parse")), "scripts using is_pressed() in assignments, if / nested-while conditions, helper functions, boolean and arithmetic expressions and twice in one pass: the emitted sketch, evaluated on a scripted board, reads the button pin exactly once in setup() and once per loop() pass, and every is_pressed() of a pass answers from that sample (trace equal to CPython's on a stand-in that samples once per pass)", floor=6)
 
+    tce = pm.func("_to_c_expr")
     # ---- C15-POT -----------------------------------------------------------------------------
     r = cx.rule("C15-POT", "Potentiometer.read() is translated to a fresh analogRead of the declared pin on every call", floor=3)
     # scripts through parse(): every read() of a declared potentiometer becomes an analogRead of *its* pin, once per call
